@@ -206,8 +206,8 @@ def runDtcwt (op : String) (ps : List Int) (ts : List (Option (T α))) : Res α 
           if incl.getD j false then some (ofL4 (r.map (·.map fun p => (p.2.2.getD j none).getD []))) else none
         some (scales ++ highs)
       else some (some lows :: highs)
-  /- DTCWTInverse o_dim ri_dim sym | g0o g1o g0a g0b g1a g1b (raw) | low|none | highs_1.. (in layout) -/
-  | "DTCWTInverse", [o, ri, sym], some g0o :: some g1o :: some g0a :: some g0b :: some g1a :: some g1b :: low :: highs =>
+  /- DTCWTInverse o_dim ri_dim sym spelling(0 None,1 empty tensor,2 0-d placeholder: all absent) | g0o g1o g0a g0b g1a g1b (raw) | low|none | highs_1.. (in layout) -/
+  | "DTCWTInverse", [o, ri, sym, _spelling], some g0o :: some g1o :: some g0a :: some g0b :: some g1a :: some g1b :: low :: highs =>
     resOfOpt do
       let f : InvFilters α := ⟨prepFilt g0o.l1, prepFilt g1o.l1, prepFilt g0a.l1, prepFilt g0b.l1, prepFilt g1a.l1, prepFilt g1b.l1⟩
       -- the module asserts shape[o_dim] == 6, 6 dims, shape[ri_dim] == 2 for levels ≥ 2
